@@ -183,6 +183,20 @@ def _table(ctx) -> None:
                     RES, REV = _seq_of(it, d0[2][0]), _seq_of(it, d1[2][0])
                     order_ok = True
                     colv, revv = ("elem", d0, Lp), ("elem", d1, Lp)
+            if not order_ok and lp.range is not None and lp.range[1] == const(-1) and lp.range[2] == const(-1) \
+                    and lp.range[0][0] == "bin" and lp.range[0][1] == "Sub" and lp.range[0][3] == const(1) \
+                    and lp.range[0][2][0] == "call" and lp.range[0][2][1] == ("name", "len") and len(lp.range[0][2][2]) == 1:
+                # for pos in range(len(keys) - 1, -1, -1): keys[pos], flags[pos] - the same pairs, last key first
+                RES = _seq_of(it, lp.range[0][2][2][0])
+                pos = ("elem", itr, Lp)
+                flagseqs = {x[1] for e_ in it.events if Lp in e_.loops for t_ in ([e_.term, e_.value] + [c for c, _ in e_.conds]) if t_ is not None
+                            for x in subterms(t_) if x[0] == "sub" and x[2] == pos and _seq_of(it, x[1]) != RES
+                            and x[1] != ("attr", ("sub", RES, pos), "_underlying")}
+                if len(flagseqs) == 1:
+                    fs_ = flagseqs.pop()
+                    REV = _seq_of(it, fs_)
+                    order_ok = True
+                    colv, revv = ("sub", lp.range[0][2][2][0], pos), ("sub", fs_, pos)
             if not order_ok or len(se.loops) != 1:
                 problems.append(f"keys are applied in the order `{sh(itr, 80)}`, expected reversed(list(zip(<resolved keys>, <reverse flags>))): the "
                                 f"last key first, so that earlier keys dominate (stable sorts)")
